@@ -9,7 +9,7 @@ use crate::{BinaryDeserializer, BinaryInput, DeserializationContext, Error, Resu
 pub struct AdtDeserializer<'a, 'b, 'c> {
     metadata: &'a AdtMetadata,
     context: &'b mut DeserializationContext<'c>,
-    last_index_per_chunk: Vec<i8>,
+    last_index_per_chunk: Vec<i32>,
     read_constructor_idx: Option<u32>,
 
     stored_version: u8,
@@ -26,7 +26,7 @@ impl<'a, 'b, 'c> AdtDeserializer<'a, 'b, 'c> {
         Ok(Self {
             metadata,
             context,
-            last_index_per_chunk: vec![-1i8; metadata.version as usize + 1],
+            last_index_per_chunk: vec![-1i32; metadata.version as usize + 1],
             read_constructor_idx: None,
             stored_version: 0,
             made_optional_at: BTreeMap::new(),
@@ -74,7 +74,7 @@ impl<'a, 'b, 'c> AdtDeserializer<'a, 'b, 'c> {
         Ok(Self {
             metadata,
             context,
-            last_index_per_chunk: vec![-1i8; metadata.version as usize + 1],
+            last_index_per_chunk: vec![-1i32; metadata.version as usize + 1],
             read_constructor_idx: None,
             stored_version,
             made_optional_at,
